@@ -357,14 +357,9 @@ Lemma enc_schema_length s : (1 <= length (enc_schema s))%nat.
 Proof. unfold enc_schema. rewrite app_length, le_bytes_length. lia. Qed.
 
 (* ------------------------------------------------------------------ the whole stream *)
-Lemma merge_all_none ss :
-  fold_left (fun o s => match o with Some c' => merge_schema c' s | None => None end) ss None = None.
-Proof. induction ss as [|s ss IH]; cbn [fold_left]; [reflexivity | exact IH]. Qed.
-
 Lemma deser_loop_ok : forall ss fuel acc,
   forallb wf_schema ss = true -> (length ss <= fuel)%nat ->
-  deser_loop fuel (flat_map enc_schema ss) acc =
-    match merge_all (map lossy_schema ss) acc with Some c => Ok c | None => Err end.
+  deser_loop fuel (flat_map enc_schema ss) acc = Ok (merge_all (map lossy_schema ss) acc).
 Proof.
   induction ss as [|s ss IH]; intros fuel acc Hwf Hf.
   - cbn [flat_map map]. unfold merge_all. cbn [fold_left]. destruct fuel; reflexivity.
@@ -376,64 +371,137 @@ Proof.
     { exfalso. pose proof (enc_schema_length s) as Hl. apply (f_equal (@length Z)) in Hbs.
       rewrite app_length in Hbs. cbn [length] in Hbs. lia. }
     cbn [deser_loop]. rewrite Hbs. rewrite rd_schema_ok by exact Hs. cbn [bind].
-    destruct (merge_schema acc (lossy_schema s)) as [c'|].
-    + rewrite IH by (try exact Hss; lia). reflexivity.
-    + rewrite merge_all_none. reflexivity.
+    rewrite IH by (try exact Hss; lia). reflexivity.
 Qed.
 
 Lemma deserialize_ok ss acc : forallb wf_schema ss = true ->
-  deserialize (enc_catalog ss) acc =
-    match merge_all (lossy_catalog ss) acc with Some c => Ok c | None => Err end.
+  deserialize (enc_catalog ss) acc = Ok (merge_all (lossy_catalog ss) acc).
 Proof.
   intros H. unfold deserialize, enc_catalog, lossy_catalog. apply deser_loop_ok; [exact H|].
   pose proof (flat_map_length_ge enc_schema ss enc_schema_length). lia.
 Qed.
 
-(* ------------------------------------------------------------------ built-in schemas only *)
+(* ------------------------------------------------------------------ merging into Catalog::new() *)
 Lemma wf_catalog_schemas c : wf_catalog c = true -> forallb wf_schema c = true.
 Proof. unfold wf_catalog. rewrite andb_true_iff. tauto. Qed.
-
-Lemma eqb_root_root : zlist_eqb name_root name_root = true. Proof. reflexivity. Qed.
-Lemma eqb_sys_sys : zlist_eqb name_syscat name_syscat = true. Proof. reflexivity. Qed.
-Lemma eqb_root_sys : zlist_eqb name_root name_syscat = false. Proof. reflexivity. Qed.
-Lemma eqb_sys_root : zlist_eqb name_syscat name_root = false. Proof. reflexivity. Qed.
-
-Lemma builtin_only_inv c : builtin_only c = true ->
-  exists ta tb, c = [Schema 0 name_root ta; Schema 1 name_syscat tb] \/ c = [Schema 1 name_syscat tb; Schema 0 name_root ta].
-Proof.
-  destruct c as [|[ia na ta] [|[ib nb tb] [|x c]]]; cbn [builtin_only]; try discriminate.
-  cbn [s_name s_id]. rewrite orb_true_iff, !andb_true_iff, !zlist_eqb_eq, !Z.eqb_eq.
-  intros [[[[-> ->] ->] ->]|[[[-> ->] ->] ->]].
-  - exists ta, tb. left. reflexivity.
-  - exists tb, ta. right. reflexivity.
-Qed.
 
 Lemma tbl_insert_all_nil ts : names_distinct (map t_name ts) = true -> tbl_insert_all ts [] = ts.
 Proof. intros H. rewrite tbl_insert_all_distinct; [reflexivity | exact H]. Qed.
 
-Theorem deserialize_builtin_l c :
-  wf_catalog c = true -> builtin_only c = true ->
+Lemma zlist_eqb_refl a : zlist_eqb a a = true.
+Proof. apply zlist_eqb_eq. reflexivity. Qed.
+
+Lemma zlist_eqb_trans_l a b n : zlist_eqb a b = true -> zlist_eqb a n = zlist_eqb b n.
+Proof. intros H. apply zlist_eqb_eq in H. subst b. reflexivity. Qed.
+
+(* what a lookup sees after one schema of the stream has been merged *)
+Lemma find_merge_schema c : forall s n,
+  find_schema (merge_schema c s) n =
+    if zlist_eqb (s_name s) n
+    then Some (match find_schema c n with
+               | Some x => Schema (s_id x) (s_name x) (tbl_insert_all (s_tables s) (s_tables x))
+               | None => Schema (s_id s) (s_name s) (tbl_insert_all (s_tables s) [])
+               end)
+    else find_schema c n.
+Proof.
+  induction c as [|x c IH]; intros s n; unfold find_schema in *; cbn [merge_schema find].
+  - cbn [s_name]. destruct (zlist_eqb (s_name s) n); reflexivity.
+  - destruct (zlist_eqb (s_name x) (s_name s)) eqn:Exs; cbn [find s_name].
+    + rewrite (zlist_eqb_trans_l _ _ n Exs). destruct (zlist_eqb (s_name s) n); reflexivity.
+    + destruct (zlist_eqb (s_name x) n) eqn:Exn.
+      * destruct (zlist_eqb (s_name s) n) eqn:Esn; [|reflexivity].
+        apply zlist_eqb_eq in Exn. apply zlist_eqb_eq in Esn. rewrite Exn, <- Esn, zlist_eqb_refl in Exs. discriminate Exs.
+      * apply IH.
+Qed.
+
+Lemma find_schema_absent ss n :
+  existsb (zlist_eqb n) (map s_name ss) = false -> find_schema ss n = None.
+Proof.
+  unfold find_schema. induction ss as [|s ss IH]; cbn [map existsb find]; [reflexivity|].
+  intros H. apply orb_false_iff in H. destruct H as [H1 H2].
+  destruct (zlist_eqb (s_name s) n) eqn:E; [|exact (IH H2)].
+  apply zlist_eqb_eq in E. rewrite E, zlist_eqb_refl in H1. discriminate H1.
+Qed.
+
+(* ... and after all of them (schema names are HashMap keys: distinct) *)
+Lemma find_merge_all ss : forall acc n, names_distinct (map s_name ss) = true ->
+  find_schema (merge_all ss acc) n =
+    match find_schema ss n with
+    | Some s => Some (match find_schema acc n with
+                      | Some x => Schema (s_id x) (s_name x) (tbl_insert_all (s_tables s) (s_tables x))
+                      | None => Schema (s_id s) (s_name s) (tbl_insert_all (s_tables s) [])
+                      end)
+    | None => find_schema acc n
+    end.
+Proof.
+  unfold merge_all. induction ss as [|s ss IH]; intros acc n Hd; cbn [fold_left]; [reflexivity|].
+  cbn [map names_distinct] in Hd. apply andb_true_iff in Hd. destruct Hd as [Hs Hd]. apply negb_true_iff in Hs.
+  rewrite (IH (merge_schema acc s) n Hd). rewrite find_merge_schema.
+  change (find_schema (s :: ss) n) with (if zlist_eqb (s_name s) n then Some s else find_schema ss n).
+  destruct (zlist_eqb (s_name s) n) eqn:E.
+  - apply zlist_eqb_eq in E. subst n. rewrite (find_schema_absent ss (s_name s) Hs). reflexivity.
+  - reflexivity.
+Qed.
+
+Lemma find_schema_name c n s : find_schema c n = Some s -> s_name s = n /\ In s c.
+Proof.
+  unfold find_schema. intros H. apply find_some in H. destruct H as [Hi He]. apply zlist_eqb_eq in He. auto.
+Qed.
+
+Lemma find_schema_lossy c n : find_schema (lossy_catalog c) n = option_map lossy_schema (find_schema c n).
+Proof.
+  unfold find_schema, lossy_catalog. induction c as [|s c IH]; cbn [map find]; [reflexivity|].
+  change (s_name (lossy_schema s)) with (s_name s). destruct (zlist_eqb (s_name s) n); [reflexivity | exact IH].
+Qed.
+
+Lemma map_s_name_lossy c : map s_name (lossy_catalog c) = map s_name c.
+Proof. unfold lossy_catalog. rewrite map_map. apply map_ext. intros s. reflexivity. Qed.
+
+Lemma find_base n :
+  find_schema base_catalog n =
+    if zlist_eqb name_root n then Some (Schema 0 name_root [])
+    else if zlist_eqb name_syscat n then Some (Schema 1 name_syscat []) else None.
+Proof. reflexivity. Qed.
+
+Lemma builtin_ok_inv c n id : builtin_ok c n id = true -> exists s, find_schema c n = Some s /\ s_id s = id.
+Proof.
+  unfold builtin_ok. destruct (find_schema c n) as [s|]; [|discriminate].
+  intros H. apply Z.eqb_eq in H. exists s. auto.
+Qed.
+
+(* every schema of a well-formed catalog that has the two built-in schemas under their ids comes
+   back, up to what the format does not store -- user-created schemas included *)
+Theorem deserialize_general_l c :
+  wf_catalog c = true -> builtins_ok c = true ->
   exists c', deserialize (enc_catalog c) base_catalog = Ok c'
              /\ forall n, find_schema c' n = find_schema (lossy_catalog c) n.
 Proof.
   intros Hwf Hb. pose proof (wf_catalog_schemas c Hwf) as Hss.
-  rewrite (deserialize_ok c base_catalog Hss).
-  destruct (builtin_only_inv c Hb) as (ta & tb & [-> | ->]);
-    cbn [forallb] in Hss; rewrite !andb_true_iff in Hss; destruct Hss as (Ha & Hb' & _);
-    apply wf_schema_inv in Ha; apply wf_schema_inv in Hb';
-    destruct Ha as (_ & _ & _ & _ & Hda); destruct Hb' as (_ & _ & _ & _ & Hdb);
-    cbn [s_tables] in Hda, Hdb.
-  - exists [Schema 0 name_root (map lossy_table ta); Schema 1 name_syscat (map lossy_table tb)]. split; [|reflexivity].
-    unfold merge_all, lossy_catalog, base_catalog, lossy_schema. cbn [map fold_left s_id s_name s_tables merge_schema].
-    rewrite eqb_root_root. cbn [s_id s_name s_tables merge_schema]. rewrite eqb_root_sys, eqb_sys_sys.
-    cbn [s_id s_name s_tables]. rewrite !tbl_insert_all_nil by (rewrite map_t_name_lossy; assumption). reflexivity.
-  - exists [Schema 0 name_root (map lossy_table ta); Schema 1 name_syscat (map lossy_table tb)]. split.
-    + unfold merge_all, lossy_catalog, base_catalog, lossy_schema. cbn [map fold_left s_id s_name s_tables merge_schema].
-      rewrite eqb_root_sys, eqb_sys_sys. cbn [s_id s_name s_tables merge_schema]. rewrite eqb_root_root.
-      cbn [s_id s_name s_tables]. rewrite !tbl_insert_all_nil by (rewrite map_t_name_lossy; assumption). reflexivity.
-    + intros n. unfold find_schema, lossy_catalog, lossy_schema. cbn [map find s_name s_id s_tables].
-      destruct (zlist_eqb name_root n) eqn:E1; destruct (zlist_eqb name_syscat n) eqn:E2; try reflexivity.
-      apply zlist_eqb_eq in E1. apply zlist_eqb_eq in E2. subst n. discriminate E2.
+  exists (merge_all (lossy_catalog c) base_catalog). split; [apply deserialize_ok; exact Hss|].
+  assert (Hd : names_distinct (map s_name (lossy_catalog c)) = true).
+  { rewrite map_s_name_lossy. unfold wf_catalog in Hwf. apply andb_true_iff in Hwf. tauto. }
+  unfold builtins_ok in Hb. apply andb_true_iff in Hb. destruct Hb as [Hr Hs].
+  apply builtin_ok_inv in Hr. destruct Hr as (sr & Hfr & Hir).
+  apply builtin_ok_inv in Hs. destruct Hs as (ssys & Hfs & His).
+  intros n. rewrite (find_merge_all (lossy_catalog c) base_catalog n Hd).
+  rewrite find_schema_lossy. rewrite find_base.
+  destruct (find_schema c n) as [s|] eqn:Efn; cbn [option_map].
+  - (* the schema is in the catalog: it comes back with the right id and all its tables *)
+    destruct (find_schema_name c n s Efn) as [Hname Hin]. subst n.
+    assert (Hws : wf_schema s = true) by (rewrite forallb_forall in Hss; apply Hss; exact Hin).
+    apply wf_schema_inv in Hws. destruct Hws as (_ & _ & _ & _ & Hdt).
+    assert (Hins : tbl_insert_all (map lossy_table (s_tables s)) [] = map lossy_table (s_tables s)).
+    { apply tbl_insert_all_nil. rewrite map_t_name_lossy. exact Hdt. }
+    destruct (zlist_eqb name_root (s_name s)) eqn:E1; [|destruct (zlist_eqb name_syscat (s_name s)) eqn:E2].
+    + apply zlist_eqb_eq in E1. rewrite <- E1, Hfr in Efn. injection Efn as ->.
+      cbn [s_id s_name s_tables lossy_schema]. rewrite Hins. unfold lossy_schema. rewrite <- E1, Hir. reflexivity.
+    + apply zlist_eqb_eq in E2. rewrite <- E2, Hfs in Efn. injection Efn as ->.
+      cbn [s_id s_name s_tables lossy_schema]. rewrite Hins. unfold lossy_schema. rewrite <- E2, His. reflexivity.
+    + cbn [s_id s_name s_tables lossy_schema]. rewrite Hins. reflexivity.
+  - (* not in the catalog: then it is not a built-in name either, and nothing appears *)
+    destruct (zlist_eqb name_root n) eqn:E1; [|destruct (zlist_eqb name_syscat n) eqn:E2]; [| |reflexivity].
+    + apply zlist_eqb_eq in E1. subst n. rewrite Hfr in Efn. discriminate Efn.
+    + apply zlist_eqb_eq in E2. subst n. rewrite Hfs in Efn. discriminate Efn.
 Qed.
 
 (* what the format cannot express is the only loss *)
@@ -566,23 +634,23 @@ Proof.
   rewrite Z.ltb_irrefl. unfold zlen. rewrite Nat2Z.id, firstn_all. reflexivity.
 Qed.
 
-(* every catalog with only the built-in schemas comes back, up to what the format does not store *)
+(* every catalog that has the built-in schemas comes back, up to what the format does not store *)
 Theorem catalog_roundtrip_lossy_l c :
-  wf_catalog c = true -> file_fits c = true -> builtin_only c = true ->
+  wf_catalog c = true -> file_fits c = true -> builtins_ok c = true ->
   exists f c', save_file c = Some f /\ load_file f = Ok c'
                /\ forall n, find_schema c' n = find_schema (lossy_catalog c) n.
 Proof.
   intros Hwf Hf Hb. pose proof (wf_catalog_schemas c Hwf) as Hss.
-  destruct (deserialize_builtin_l c Hwf Hb) as (c' & Hd & Hc').
+  destruct (deserialize_general_l c Hwf Hb) as (c' & Hd & Hc').
   exists (header c (zlen (enc_catalog c)) ++ enc_catalog c), c'. split; [|split].
   - unfold save_file. rewrite (save_parts_wf c Hss). reflexivity.
   - rewrite (load_saved c Hss Hf). exact Hd.
   - exact Hc'.
 Qed.
 
-Lemma codec_class_0 c : codec_class c = 0 -> builtin_only c = true /\ catalog_plain c = true.
+Lemma codec_class_0 c : codec_class c = 0 -> builtins_ok c = true /\ catalog_plain c = true.
 Proof.
-  unfold codec_class. destruct (builtin_only c); cbn [negb]; [|discriminate].
+  unfold codec_class. destruct (builtins_ok c); cbn [negb]; [|discriminate].
   destruct (catalog_plain c); cbn [negb]; [auto | discriminate].
 Qed.
 
@@ -602,64 +670,27 @@ Theorem serialize_deserialize_l c :
                 /\ forall n, find_schema c' n = find_schema c n.
 Proof.
   intros Hwf Hk. apply codec_class_0 in Hk. destruct Hk as [Hb Hp].
-  destruct (deserialize_builtin_l c Hwf Hb) as (c' & Hd & Hc').
+  destruct (deserialize_general_l c Hwf Hb) as (c' & Hd & Hc').
   rewrite (lossy_catalog_plain c Hp) in Hc'.
   exists (enc_catalog c), c'. rewrite (serialize_wf c (wf_catalog_schemas c Hwf)). auto.
 Qed.
 
-(* ------------------------------------------------------------------ class 1: user schemas *)
-Lemma merge_schema_names c : forall s c', merge_schema c s = Some c' -> map s_name c' = map s_name c.
+(* ------------------------------------------------------------------ class 1: a built-in schema is missing *)
+(* whatever the catalog, the two schemas of Catalog::new() are there after a load *)
+Theorem builtin_schemas_reappear_l c n :
+  wf_catalog c = true -> file_fits c = true -> (n = name_root \/ n = name_syscat) ->
+  exists f c', save_file c = Some f /\ load_file f = Ok c' /\ find_schema c' n <> None.
 Proof.
-  induction c as [|x c IH]; intros s c' H; cbn [merge_schema] in H; [discriminate|].
-  destruct (zlist_eqb (s_name x) (s_name s)).
-  - injection H as <-. reflexivity.
-  - destruct (merge_schema c s) as [r|] eqn:E; [|discriminate]. injection H as <-.
-    cbn [map]. rewrite (IH s r E). reflexivity.
-Qed.
-
-Lemma merge_schema_absent c : forall s,
-  existsb (fun n => zlist_eqb n (s_name s)) (map s_name c) = false -> merge_schema c s = None.
-Proof.
-  induction c as [|x c IH]; intros s H; cbn [merge_schema]; [reflexivity|].
-  cbn [map existsb] in H. apply orb_false_iff in H. destruct H as [H1 H2].
-  rewrite H1, (IH s H2). reflexivity.
-Qed.
-
-Lemma merge_all_user ss : forall acc,
-  map s_name acc = map s_name base_catalog -> has_user_schema ss = true -> merge_all ss acc = None.
-Proof.
-  unfold merge_all. induction ss as [|s ss IH]; intros acc Hn Hu; cbn [has_user_schema existsb] in Hu; [discriminate|].
-  cbn [fold_left].
-  destruct (is_builtin_name (s_name s)) eqn:Eb; cbn [negb orb] in Hu.
-  - destruct (merge_schema acc s) as [c'|] eqn:Em.
-    + apply (IH c'); [|exact Hu]. rewrite (merge_schema_names acc s c' Em). exact Hn.
-    + apply merge_all_none.
-  - rewrite merge_schema_absent; [apply merge_all_none|].
-    rewrite Hn. cbn [base_catalog map s_name existsb]. unfold is_builtin_name in Eb.
-    apply orb_false_iff in Eb. destruct Eb as [E1 E2].
-    assert (S1 : zlist_eqb name_root (s_name s) = false).
-    { destruct (zlist_eqb name_root (s_name s)) eqn:E; [|reflexivity]. apply zlist_eqb_eq in E. rewrite <- E in E1. discriminate E1. }
-    assert (S2 : zlist_eqb name_syscat (s_name s) = false).
-    { destruct (zlist_eqb name_syscat (s_name s)) eqn:E; [|reflexivity]. apply zlist_eqb_eq in E. rewrite <- E in E2. discriminate E2. }
-    rewrite S1, S2. reflexivity.
-Qed.
-
-Lemma has_user_schema_lossy c : has_user_schema (lossy_catalog c) = has_user_schema c.
-Proof.
-  unfold has_user_schema, lossy_catalog. induction c as [|s c IH]; cbn [map existsb]; [reflexivity|].
-  rewrite IH. reflexivity.
-Qed.
-
-(* a catalog with a user-created schema is saved without complaint and can never be loaded again *)
-Theorem user_schema_unloadable_l c :
-  wf_catalog c = true -> file_fits c = true -> has_user_schema c = true ->
-  exists f, save_file c = Some f /\ load_file f = Err.
-Proof.
-  intros Hwf Hf Hu. pose proof (wf_catalog_schemas c Hwf) as Hss.
-  exists (header c (zlen (enc_catalog c)) ++ enc_catalog c). split.
+  intros Hwf Hf Hn. pose proof (wf_catalog_schemas c Hwf) as Hss.
+  exists (header c (zlen (enc_catalog c)) ++ enc_catalog c), (merge_all (lossy_catalog c) base_catalog).
+  split; [|split].
   - unfold save_file. rewrite (save_parts_wf c Hss). reflexivity.
-  - rewrite (load_saved c Hss Hf), (deserialize_ok c base_catalog Hss).
-    rewrite merge_all_user; [reflexivity | reflexivity | rewrite has_user_schema_lossy; exact Hu].
+  - rewrite (load_saved c Hss Hf). apply deserialize_ok. exact Hss.
+  - assert (Hd : names_distinct (map s_name (lossy_catalog c)) = true).
+    { rewrite map_s_name_lossy. unfold wf_catalog in Hwf. apply andb_true_iff in Hwf. tauto. }
+    rewrite (find_merge_all (lossy_catalog c) base_catalog n Hd).
+    destruct (find_schema (lossy_catalog c) n); [discriminate|].
+    destruct Hn as [-> | ->]; discriminate.
 Qed.
 
 (* ------------------------------------------------------------------ truncated files *)
@@ -694,13 +725,14 @@ Proof.
   split; [vm_compute; reflexivity|]. vm_compute. discriminate.
 Qed.
 
-Theorem user_schema_refuted_l :
-  exists c f, wf_catalog c = true /\ file_fits c = true /\ codec_class c = 1
-              /\ save_file c = Some f /\ load_file f = Err.
+Theorem dropped_root_reappears_refuted_l :
+  exists c f c', wf_catalog c = true /\ file_fits c = true /\ codec_class c = 1
+                 /\ save_file c = Some f /\ load_file f = Ok c'
+                 /\ find_schema c name_root = None /\ find_schema c' name_root <> None.
 Proof.
-  exists ex_user_catalog.
-  destruct (save_file ex_user_catalog) as [f|] eqn:Ef; [|vm_compute in Ef; discriminate Ef].
+  exists ex_noroot_catalog.
+  destruct (save_file ex_noroot_catalog) as [f|] eqn:Ef; [|vm_compute in Ef; discriminate Ef].
   vm_compute in Ef. injection Ef as <-.
-  eexists. split; [reflexivity|]. split; [reflexivity|]. split; [reflexivity|]. split; [reflexivity|].
-  vm_compute. reflexivity.
+  eexists. eexists. split; [reflexivity|]. split; [reflexivity|]. split; [reflexivity|]. split; [reflexivity|].
+  split; [vm_compute; reflexivity|]. split; [reflexivity|]. vm_compute. discriminate.
 Qed.
